@@ -139,15 +139,19 @@ def override (xs : List Rat) (env : List (Option Rat)) : List Rat :=
   List.zipWith (fun x e => e.getD x) xs env
 
 /-- continuous actions of one agent, one environment.
-    `perDim = true`: clamp each dimension with its own bounds (repaired code);
-    `perDim = false`: clamp every dimension with the bounds of dimension 0 (defect D11). -/
+    `perDim = true` (repaired code): every dimension is clamped with its own bounds, in training mode
+    after the exploration noise and in evaluation mode as well (so that a user-supplied actor network,
+    whose output is not rescaled, cannot leave the Box);
+    `perDim = false` (code before the repairs): training mode clamps every dimension with the bounds of
+    dimension 0 (defect D11), evaluation mode returns the actor output as it is. -/
 def maContRow (perDim training : Bool) (los his a noise : List Rat) (env : List (Option Rat)) : List Rat :=
   let x :=
     if training then
       let s := addVec a noise
       if perDim then clipVec los his s
       else s.map (clip (los.headD 0) (his.headD 0))
-    else a
+    else
+      if perDim then clipVec los his a else a
   override x env
 
 /-- discrete actions of one agent, one environment: (noisy, clamped to [0,1]) actor output,
